@@ -14,6 +14,8 @@ Theorems (all over Model/Routing.lean applied to the tables regenerated from /re
   cached_filter_exact       … with the cache's sortedness established by update (normalize_sorted), no side condition
   update_follows            after update(m) the layout and the connection groups are those of m
   conns_invariant           … along every history of updates
+  metadata_served_from_cache / metadata_autocreate_decision / metadata_autocreate_unknown / topicsToRefresh_spec / refreshDone_spec
+                            roundTrip's metadata arm: served from the cache unless auto-creation meets an unknown topic; what it then waits for
   parts_cover_splitters     every Splitter type of the source has a split model (regenerated table, decide)
   split_resources_partition / split_resources_target / split_brokers_cover   DescribeConfigs and ListGroups parts: every resource / broker exactly once, at the right broker
 -/
@@ -21,6 +23,7 @@ import KafkaVerif.Model.Routing
 import KafkaVerif.Lemmas.Routing
 import KafkaVerif.Model.Discover
 import KafkaVerif.Model.Split
+import KafkaVerif.Model.RoundTrip
 
 namespace KV.Props.C12
 open KV.Routing KV.Gen.Routing
@@ -441,5 +444,69 @@ theorem split_brokers_cover (a : ApiMethods) (c : Cluster) (conns : List (Int ×
   simp [hk0, hinv k, hkb]
 
 end splits
+
+/-! ## metadata requests through roundTrip -/
+
+section roundtrip
+open KV.RoundTrip
+open KV.Lemmas.Routing (SortedTopics)
+
+/-- **metadata_served_from_cache**: without AllowAutoTopicCreation a metadata request never reaches a broker:
+it is answered with the cached (last refreshed) answer restricted to the requested topics. -/
+theorem metadata_served_from_cache (s : PoolState) (cached : MResponse) (names : Option (List String))
+    (herr : s.err = false) (hm : s.metadata = some cached) :
+    metadataDecision s ⟨names, false⟩ = .fromCache (filterMetadata names cached) := by
+  simp [metadataDecision, herr, hm]
+
+/-- with AllowAutoTopicCreation the broker is asked exactly when a requested topic is unknown to the cache
+(or cached with UnknownTopicOrPartition) -/
+theorem metadata_autocreate_decision (s : PoolState) (cached : MResponse) (names : Option (List String))
+    (herr : s.err = false) (hm : s.metadata = some cached) :
+    (metadataDecision s ⟨names, true⟩ = .askBroker ↔
+      ∃ t ∈ (filterMetadata names cached).topics, t.error = errUnknownTopic) ∧
+    ((¬ ∃ t ∈ (filterMetadata names cached).topics, t.error = errUnknownTopic) →
+      metadataDecision s ⟨names, true⟩ = .fromCache (filterMetadata names cached)) := by
+  simp only [metadataDecision, herr, hm, Bool.false_eq_true, ↓reduceIte, Bool.true_and]
+  by_cases h : (filterMetadata names cached).topics.any (fun t => t.error == errUnknownTopic) = true
+  · have hex : ∃ t ∈ (filterMetadata names cached).topics, t.error = errUnknownTopic := by
+      obtain ⟨t, ht, he⟩ := List.any_eq_true.mp h
+      exact ⟨t, ht, by simpa using he⟩
+    simp [h, hex]
+  · have hnex : ¬ ∃ t ∈ (filterMetadata names cached).topics, t.error = errUnknownTopic := by
+      rintro ⟨t, ht, he⟩
+      exact h (List.any_eq_true.mpr ⟨t, ht, by simpa using he⟩)
+    simp [h, hnex]
+
+/-- a requested name that is not in the (sorted) cache makes an auto-creating request go to the broker -/
+theorem metadata_autocreate_unknown (s : PoolState) (cached : MResponse) (names : List String) (n : String)
+    (herr : s.err = false) (hm : s.metadata = some cached) (hs : SortedTopics cached.topics)
+    (hn : n ∈ names) (habs : ∀ t ∈ cached.topics, t.name ≠ n) :
+    metadataDecision s ⟨some names, true⟩ = .askBroker := by
+  apply (metadata_autocreate_decision s cached (some names) herr hm).1.mpr
+  rw [filter_eq_last_refresh cached names hs]
+  refine ⟨unknownTopic n, ?_, rfl⟩
+  simp only [List.mem_map]
+  refine ⟨n, hn, ?_⟩
+  have : cached.topics.find? (fun t => t.name == n) = none := by
+    apply List.find?_eq_none.mpr
+    intro t ht
+    simpa using habs t ht
+  simp [this]
+
+/-- only topics that were created without error are waited for (issues 672 / 806 of the library) -/
+theorem topicsToRefresh_spec (topics : List (String × Int)) (t : String) :
+    t ∈ topicsToRefresh topics ↔ (t, 0) ∈ topics := by
+  simp only [topicsToRefresh, List.mem_map, List.mem_filter]
+  constructor
+  · rintro ⟨⟨n, e⟩, ⟨hm, he⟩, rfl⟩
+    have : e = 0 := by simpa using he
+    subst this; exact hm
+  · intro h; exact ⟨(t, 0), ⟨h, by simp⟩, rfl⟩
+
+theorem refreshDone_spec (layout : Cluster) (expect : List String) :
+    refreshDone layout expect = true ↔ ∀ t ∈ expect, ∃ x, layout.topics.lookup t = some x := by
+  simp only [refreshDone, List.all_eq_true, Option.isSome_iff_exists]
+
+end roundtrip
 
 end KV.Props.C12
